@@ -645,6 +645,11 @@ func (e *Exec) structuralSplit(s *Term, sep string, n int) ([]*Term, bool) {
 	var out []*Term
 	var cur []*Term
 	for _, p := range s.args {
+		if n > 0 && len(out) == n-1 {
+			// SplitN: the last piece takes everything that is left, whatever it contains
+			cur = append(cur, p)
+			continue
+		}
 		if lit, ok := p.strVal(); ok {
 			rest := lit
 			for {
@@ -665,7 +670,10 @@ func (e *Exec) structuralSplit(s *Term, sep string, n int) ([]*Term, bool) {
 		}
 		cs := charSet(p)
 		if cs == nil || cs.has(sep[0]) {
-			return nil, false
+			// a piece the path condition already knows to be separator-free
+			if v, ok := e.known(mkContains(p, mkStr(sep))); !ok || v {
+				return nil, false
+			}
 		}
 		cur = append(cur, p)
 	}
